@@ -244,6 +244,21 @@ impl Property for C06 {
                 items.insert(pos, json!({"noise": enc(&noise)}));
             }
         }
+        // size regime: a noise line that is longer than a buffer somewhere in the system (8 KiB BufReader, 64 KiB, 128 KiB)
+        // and whose part beyond that boundary is, taken alone, a perfectly valid record: a reader that hands long lines
+        // out in pieces turns the remainder into a phantom row
+        if sqlgen::garbage_is_noise(&cfg) && (cfg.variant == Variant::Capture || cfg.variant == Variant::Json) && rng.chance(1, 120) {
+            let boundary = *rng.pick(&[8192usize, 65536, 65536, 131072]);
+            let pad_len = match rng.below(4) {
+                0 => boundary - 1,
+                1 => boundary + 1,
+                _ => boundary,
+            };
+            let mut noise = vec![b'X'; pad_len];
+            noise.extend_from_slice(sqlgen::render_line(&cfg, &sqlgen::gen_line_spec(rng, &cfg, &lc)).as_bytes());
+            let pos = rng.below(items.len() + 1);
+            items.insert(pos, json!({"noise": enc(&noise), "giant": true}));
+        }
         // bytes that are not UTF-8 at all (Latin-1 text, binary garbage): in follow mode such a line is decoded
         // lossily and matches nothing; in batch mode it is an error by design, so it is used for the follow twins only
         if sqlgen::garbage_is_noise(&cfg) && rng.chance(1, 5) {
@@ -496,6 +511,7 @@ impl Property for C06 {
         out.probe("noise_between_admitted", between as u64);
         out.probe("noise_in_joined_file", joined_noise as u64);
         out.probe("noise_first_line", (!admitted[0]) as u64);
+        out.probe("noise_line_longer_than_8k_64k_128k_with_valid_record_beyond_the_boundary", items.iter().any(|it| matches!(it, Item::Noise(b) if b.len() > 8000)) as u64);
         out.probe("noise_last_line", (!admitted[admitted.len() - 1]) as u64);
         out.probe("file_without_final_newline_before_next_file", (!split_nl && !split.is_empty()) as u64);
         out.probe("noise_across_file_boundary", split.iter().any(|s| (*s > 0 && !admitted[*s - 1]) || (*s < admitted.len() && !admitted[*s])) as u64);
